@@ -110,9 +110,18 @@ class Adapter:
     discard_noop = False        # remove_unfinished is documented as a no-op
     pending_superset = False    # pending_points may legitimately hold more than what was handed out
     has_tell_pending = True
+    retell_alt = True           # a re-tell with a DIFFERENT value is a legal op (first kept, or overwritten)
 
     def __init__(self, spec):
         self.spec = spec
+
+    def stored(self, v):
+        """What data holds for a told value (canonical)."""
+        return canon(v)
+
+    def count_points(self, keys):
+        """npoints expected for a set of distinct told keys."""
+        return len(keys)
 
     # keys: canonical identity of a point in data / pending_points
     def key(self, p):
@@ -173,7 +182,10 @@ class A_L1D(Adapter):
     def tell_many_ok(self, l, pts):
         # the rebuilding path of Learner1D.tell_many is legal only once both end
         # points are known or pending (DESIGN 4.5); keep batches on the incremental path
-        return not (len(pts) > 0.5 * len(l.data) and len(pts) > 2)
+        if not (len(pts) > 0.5 * len(l.data) and len(pts) > 2):
+            return True
+        xs = {float(p) for p in pts}
+        return all(b in l.data or b in l.pending_points or b in xs for b in l.bounds)
 
 
 class A_LND(Adapter):
@@ -274,6 +286,9 @@ class A_Avg1D(Adapter):
                 return p
         return None
 
+    def count_points(self, keys):
+        return len({k[2] for k in keys})        # distinct abscissae: key = ("t", seed, x)
+
     # the record of what was told is _data_samples; data holds the running means
     def data_items(self, l):
         return [(self.key((seed, x)), canon(y)) for x, smp in l._data_samples.items() for seed, y in smp.items()]
@@ -321,6 +336,7 @@ class A_Int(Adapter):
     discard_noop = True
     pending_superset = True     # points are pending from the moment they are queued
     has_tell_pending = False
+    retell_alt = False
 
     def make(self):
         from adaptive import IntegratorLearner
@@ -357,6 +373,16 @@ class A_Bal(Adapter):
         self.discard_noop = self.child.discard_noop
         self.pending_superset = self.child.pending_superset
         self.has_tell_pending = self.child.has_tell_pending
+        self.retell_alt = self.child.retell_alt
+
+    def stored(self, v):
+        return self.child.stored(v)
+
+    def count_points(self, keys):
+        n = 0
+        for i in {k[1] for k in keys}:
+            n += self.child.count_points([k[2] for k in keys if k[1] == i])
+        return n
 
     def make(self):
         from adaptive import BalancingLearner
@@ -396,8 +422,14 @@ class A_DS(Adapter):
     def __init__(self, spec):
         super().__init__(spec)
         self.child = adapter(spec["child"])
-        for a in ("keeps_first", "unsolicited", "discard_noop", "pending_superset", "has_tell_pending"):
+        for a in ("keeps_first", "unsolicited", "discard_noop", "pending_superset", "has_tell_pending", "retell_alt"):
             setattr(self, a, getattr(self.child, a))
+
+    def stored(self, v):
+        return self.child.stored(v["y"])
+
+    def count_points(self, keys):
+        return self.child.count_points(keys)
 
     def make(self):
         from adaptive import DataSaver
@@ -617,8 +649,16 @@ def gen_op(ad: Adapter, l, rng, handed, weights=None):
                 (ad.rand_point(rng, l) if ad.unsolicited else None)
             if p is not None and all(ad.key(p) != ad.key(q) for q in pts):
                 pts.append(p)
+        vals = [ad.value(p) for p in pts]
+        if w.get("retell_in_batch", 0.25) > rng.random():
+            known = known_points(ad, l)
+            if known:
+                p = rng.choice(known)
+                if all(ad.key(ad.point(plain(p))) != ad.key(ad.point(plain(q))) for q in pts):
+                    pts.append(p)
+                    vals.append(told_value(ad, l, p))
         if len(pts) >= 2 and ad.tell_many_ok(l, pts):
-            return ["tell_many", [plain(p) for p in pts], [plain(ad.value(p)) for p in pts]]
+            return ["tell_many", [plain(p) for p in pts], [plain(v) for v in vals]]
         return ["ask", rng.choice([1, 2]), True]
     if r < tp:
         p = ad.rand_point(rng, l) if (ad.unsolicited and ad.has_tell_pending) else None
@@ -630,7 +670,7 @@ def gen_op(ad: Adapter, l, rng, handed, weights=None):
         if not known:
             return ["ask", 1, True]
         p = rng.choice(known)
-        same = rng.random() < 0.5
+        same = rng.random() < 0.5 or not ad.retell_alt
         return ["tell", plain(p), plain(told_value(ad, l, p) if same else ad.alt_value(p))]
     return ["remove_unfinished"]
 
